@@ -250,11 +250,17 @@ var (
 
 // raceSignature names, for each of the two accesses, the innermost frame that lies in the repository (closures are
 // attributed to their enclosing function), sorted: the unordered pair of the accessing functions, no line numbers.
-func raceSignature(rep string) string {
+// byHarness is set when one of the accesses was made by harness code (its innermost frame outside the runtime and the
+// standard library is in verif/harness): that is no access of the broker.
+func raceSignature(rep string) (sig string, byHarness bool) {
 	var fns []string
 	for _, m := range raceAccessRe.FindAllStringSubmatch(rep, -1) {
 		name := "outside-repository"
 		for _, f := range raceFrameRe.FindAllStringSubmatch(m[1], -1) {
+			if strings.HasPrefix(f[1], "verif/harness/") {
+				byHarness = true
+				break
+			}
 			if strings.HasPrefix(f[1], repoPrefix) {
 				name = shortFunc(f[1])
 				break
@@ -263,10 +269,10 @@ func raceSignature(rep string) string {
 		fns = append(fns, name)
 	}
 	if len(fns) == 0 {
-		return "C33-data-race-unparsed-report"
+		return "C33-data-race-unparsed-report", false
 	}
 	sort.Strings(fns)
-	return "C33-data-race-" + strings.Join(fns, "-")
+	return "C33-data-race-" + strings.Join(fns, "-"), byHarness
 }
 
 func trimReport(rep string) string {
@@ -283,11 +289,15 @@ func trimReport(rep string) string {
 	return rep
 }
 
-func raceDiscs(log string) (ds []evid.Disc, total int) {
+func raceDiscs(log string) (ds []evid.Disc, total int, harness []string) {
 	count := map[string]int{}
 	for _, rep := range strings.Split(log, "WARNING: DATA RACE")[1:] {
 		total++
-		sig := raceSignature(rep)
+		sig, byHarness := raceSignature(rep)
+		if byHarness {
+			harness = append(harness, trimReport(rep))
+			continue
+		}
 		if count[sig]++; count[sig] == 1 {
 			ds = append(ds, evid.D(sig, "the race detector reported (first report with this pair of functions in this execution):\nWARNING: DATA RACE%s", trimReport(rep)))
 		}
